@@ -955,6 +955,7 @@ func (e *Engine) encodeAddr(s *State, a *Addr) string {
 		loc := s.newLoc("esc")
 		ty := s.cellTy[a.Cell]
 		cv := s.cells[a.Cell]
+		s.assume(e.typeInv(types.NewPointer(ty), loc))
 		for _, gn := range e.zeroGhosts() {
 			g := e.ghosts[gn]
 			s.assume(eq(s.ghostRead(g, loc), e.zero(g.Ty)))
